@@ -80,3 +80,18 @@ Definition run_client (args : list Z) : list Z :=
   | 5 :: r => run_script _ _ _ _ _ p_msg5 on_message5 snap5 (S (length r)) empty5 r
   | _ => [-1]
   end.
+
+(* [61; ops...] the AT4 group-status poll: ops 0 start, 1 stop, 2 seen, [3; dt; connected]
+   -> the instants of the requests, then [-1; deadline; now] *)
+From PV Require Import api.Poll.
+Fixpoint dec_pops (fuel : nat) (l : list Z) : list pop :=
+  match fuel, l with
+  | S f, 0 :: r => PStart :: dec_pops f r
+  | S f, 1 :: r => PStop :: dec_pops f r
+  | S f, 2 :: r => PSeen :: dec_pops f r
+  | S f, 3 :: dt :: c :: r => PAdv dt (zb c) :: dec_pops f r
+  | _, _ => []
+  end.
+Definition run_poll (args : list Z) : list Z :=
+  let '(s, evs) := prun (300 * 1024) pinit (dec_pops (length args) args) in
+  concat (map (fun e => match e with PRequest t => [t] | PTime _ => [] end) evs) ++ [-1; p_dead s; p_now s].
